@@ -41,9 +41,9 @@ claimed = {
  'C17': ('X', 'fault_enumeration', 'engine X: crash-point enumeration - one child process per (node size, byte offset, mode) runs the real file store under RLIMIT_FSIZE so the kernel cuts the write at exactly that byte (process killed by SIGXFSZ, or EFBIG returned), then restart + Load + re-Store + Load',
    'Every byte offset 0..len for node sizes 1, 33, 4097 (10000 and strided 70000 in the thorough tier), both crash and I/O-error mode: the first Load after the cut must be not-found or the complete bytes, a re-Store must make the node complete, an acknowledged Store must be complete; plus the same Store retried in the same process after the I/O error cleared.',
    'No power-loss / page-cache model (the property does not ask for one); RLIMIT_FSIZE semantics of the kernel.', 'DESIGN.md 3 (engine X), C17'),
- 'C18': ('enum', 'exploration', 'exhaustive enumeration of backend x name x payload for a fixed call sequence, plus one execution per fault position on an in-process fake S3 client',
-   'In-memory, file and S3 (fake S3Interface, three bucket/prefix pairs) backends x 31 names x 5 payloads (empty, binary, 1 MiB): round trip, missing names error, double store, two names, exact bucket/prefix+name addressing; an error at each S3 client call and a body failing mid-read must be returned to the caller.',
-   'Concurrent double stores are covered for the in-memory store only through engine S in C03/C11 scenarios; real S3 semantics are represented by the fake client.', 'DESIGN.md C18'),
+ 'C18': ('enum', 'model_checking', 'explicit-state BFS to closure over call histories of one backend object (Store/Load of three names plus a never-written one; on S3 also each call with its client request answered by an error or a body failing mid-read) against a map model, successors by replay on a fresh backend; plus exhaustive enumeration of backend x name x payload for a fixed call sequence, and all interleavings of two Stores and a Load (engine S)',
+   'In-memory, file and S3 (fake S3Interface returning the SDK error types, three bucket/prefix pairs) backends. BFS: every reachable combination of (stored, store attempted/failed, load attempted/failed) per name, each call judged against the model and, in every new state, every name loaded and the S3 object map compared with the model (exact bucket/prefix+name addressing, exactly one client request per call). Enumeration: 31 names x 5 payloads (empty, binary, 1 MiB): round trip, missing names error, double store, two names. Engine S: Store || Store || Load of one name, preemption bound 3, in-memory and S3.',
+   'Real S3 semantics are represented by the fake client; the file backend has no fault alphabet here (its cut-short writes are C17).', 'DESIGN.md C18'),
  'C19': ('enum', 'exploration', 'exhaustive enumeration of (persisted version x perturbation); the reference decoder/order/layer functions decide which clause of the property holds, only those cases are judged',
    'Every version of six universes x {unknown formats, missing top node, every proper prefix of the top node, every mismatched (keys,values,links) framing, rearranged/duplicated keys, reversed loader order, Height 0..H+3, BranchFactor 2/3/4/5/16}: LoadMast must return an error (not panic, not a tree), also when the top node already sits in a shared node cache.',
    'Perturbations for which no clause of the property holds are not judged.', 'DESIGN.md C19'),
